@@ -8,6 +8,7 @@ import EaselModel.Getopts.WfCheck
 import EaselModel.Getopts.AllocHist
 import EaselModel.Getopts.IllFormed
 import EaselModel.Getopts.HelpLemmas
+import EaselModel.Getopts.RoundLemmas
 /-! # C14 — option processing resolves every configuration by the documented rules
 
 Property theorems about the executable model `EaselModel.Getopts` of `esl_getopts.c` (tied to the working tree by
@@ -34,6 +35,9 @@ and every sequence of sources:
 * text produced from table / configuration: `displayHelp_fails_iff`, `displayHelp_output_documented`,
   `spoofed_cmdline_lists_set_and_on_options`, `spoofCmdline_never_crashes`; integers beyond `int`:
   `accepted_integer_satisfies_range_as_getter_returns_it`
+* `strtod` rounding (decimal → nearest binary64, `Round.lean`, bit-exact against glibc in the differential run):
+  `strtod_rounds_to_nearest`, `strtod_exact_on_representable`, `strtod_rounding_monotone_in_binade`, `strtod_monotone`,
+  `real_range_test_monotone`, `inclusive_real_bound_accepts_every_true_member`
 * (f) queries: `isUsed_iff`, `isDefault_of_default_setter`, `not_default_has_setter`
 
 Not proved here (checked by the differential run only): that the decimal `strtod`/`strtol` models agree with glibc;
@@ -761,5 +765,49 @@ example : ((match processCmdline demoG [s "prog", s "-b", s "-n", s "7", s "x"] 
     some (s "prog -b -n 7 x ") := by decide
 example : atoi (s "4294967301") = 5 ∧ atoi (s "2147483648") = -2147483648 ∧ atoi (s "9223372036854775808") = -1 ∧
     intRangeOk (s "4294967296") (some (s "n>0")) = false ∧ intRangeOk (s "4294967301") (some (s "n>0")) = true := by decide
+
+/-! ## `strtod`: decimal → binary64 -/
+
+/-- the significand the conversion delivers is a nearest integer to the scaled value (`|q·d − n| ≤ d/2`; ties go to
+    the even neighbour by `roundDiv`'s last branch) -/
+theorem strtod_rounds_to_nearest (n d : Nat) (hd : 0 < d) :
+    2 * n ≤ 2 * (roundDiv n d * d) + d ∧ 2 * (roundDiv n d * d) ≤ 2 * n + d := roundDiv_nearest n d hd
+
+/-- **exact on every decimal whose value is a binary64 number**: if `N/D = q₀·2^(s₀−1126)` with `q₀ < 2^53` and
+    `s₀ ≥ 52` (at most 53 significant bits, nothing below `2^−1074`), the conversion returns that value -/
+theorem strtod_exact_on_representable (N D q0 s0 : Nat) (hD : 0 < D) (hq : q0 < 2 ^ 53) (hs : 52 ≤ s0)
+    (h : N * 2 ^ SCALE = q0 * 2 ^ s0 * D) : (toDbl N D).1 * 2 ^ (toDbl N D).2 = q0 * 2 ^ s0 := toDbl_exact N D q0 s0 hD hq hs h
+
+/-- at a fixed scale (within one binade, or in the subnormal range) rounding is monotone: a larger value never gets a
+    smaller significand — so a range test on the rounded values never orders two arguments against their true order -/
+theorem strtod_rounding_monotone_in_binade (n n' d : Nat) (hd : 0 < d) (h : n ≤ n') : roundDiv n d ≤ roundDiv n' d :=
+  roundDiv_mono n n' d hd h
+
+/-- 0.5 = 2^1125·2^−1126 is representable; 0.1 is not (its nearest double is 0x3fb999999999999a); a tie goes to even -/
+example : (5 : Nat) * 2 ^ SCALE = 1 * 2 ^ 1125 * 10 ∧ (1 : Nat) < 2 ^ 53 ∧ 52 ≤ 1125 := by
+  refine ⟨?_, by decide, by decide⟩
+  have : SCALE = 1125 + 1 := rfl
+  rw [this, Nat.pow_succ]; ring
+example : hex16 (atofBits (s "0.5")) = "3fe0000000000000" ∧ hex16 (atofBits (s "0.1")) = "3fb999999999999a" ∧
+    hex16 (atofBits (s "9007199254740993")) = "4340000000000000" ∧ hex16 (atofBits (s "1e309")) = "7ff0000000000000" ∧
+    hex16 (atofBits (s "4.9e-324")) = "0000000000000001" := by decide +kernel
+
+/-- **`strtod` is monotone**: `N/D ≤ N'/D'` implies double(`N/D`) ≤ double(`N'/D'`) — across binades, through the
+    subnormal range and at the carry into the next binade -/
+theorem strtod_monotone (N D N' D' : Nat) (hD : 0 < D) (hD' : 0 < D') (h : N * D' ≤ N' * D) :
+    (toDbl N D).1 * 2 ^ (toDbl N D).2 ≤ (toDbl N' D').1 * 2 ^ (toDbl N' D').2 := toDbl_mono N D N' D' hD hD' h
+
+/-- monotonicity of the real range test as the C code performs it (on the rounded doubles), for arguments of any
+    number of digits: a lower bound that accepts `x` accepts every `y ≥ x` -/
+theorem real_range_test_monotone (lo x y : Nat × Nat) (hx : 0 < x.2) (hy : 0 < y.2) (hxy : x.1 * y.2 ≤ y.1 * x.2)
+    (h : dblLe lo x = true) : dblLe lo y = true := dblLe_mono_right lo x y hx hy hxy h
+
+/-- an inclusive bound never rejects a value that really is inside: exact `lo ≤ x` implies the test on doubles accepts -/
+theorem inclusive_real_bound_accepts_every_true_member (lo x : Nat × Nat) (hl : 0 < lo.2) (hx : 0 < x.2)
+    (h : lo.1 * x.2 ≤ x.1 * lo.2) : dblLe lo x = true := dblLe_of_le lo x hl hx h
+
+/-- 1/10 ≤ 3/10 as fractions; the converse direction can fail by rounding: 0.1 and 0.1000000000000000055 are one double -/
+example : (0 : Nat) < 10 ∧ (1 : Nat) * 10 ≤ 3 * 10 := by decide
+example : atofBits (s "0.1") = atofBits (s "0.1000000000000000055") := by decide +kernel
 
 end EaselModel.Props.C14
